@@ -1279,12 +1279,17 @@ def rule_lin(ctx):
     T = table()
     single = T["single_point_types"]
     n_axes = 0
+    n_empty = 0
     for t, hm in sorted(M.models.items()):
         tn = M.tname(t)
         fn = hm.functions[-1] if hm.functions else hm.entry
         paths = handler_slots(hm)
         if not paths or not any(paths):
-            raise AnalysisBroken("R-LIN: no coefficient slot extracted for %s" % tn)
+            n_empty += 1
+            ctx.bad(rule, "LocalLinearization:%s:L1-slots" % tn, fn.where(), fn.short,
+                    msg="the handler writes no coefficient at all: the observation equation does not "
+                    "depend on any unknown")
+            continue
         for sl in paths:
             for s in sl:
                 if s.kind is None:
@@ -1334,7 +1339,9 @@ def rule_lin(ctx):
                           "broken): sum = %s" % (ax, txt)
                 ctx.bad(rule, "LocalLinearization:%s:L1-sum-%s" % (tn, ax), where, fn.short, msg=msg,
                         detail=info)
-    ctx.floor(rule, 18, n_axes, "(observation type, axis) coefficient sums")
+    ctx.floor(rule, 13, len(M.models), "LocalLinearization handlers")
+    if not n_empty:
+        ctx.floor(rule, 18, n_axes, "(observation type, axis) coefficient sums")
 
 
 # =========================================================================== intervals (W1)
